@@ -1252,6 +1252,45 @@ def cluster_order_cap(check, prog):
             lo = mid
         else:
             hi = mid
+    # ... and the cluster-centred expansion: amncalc needs nint(xc + 4 xc^(1/3)) + 2
+    # orders for xc = k (distance from the centroid + radius), clamps them to the
+    # PARAMETER notd and warns only when suppress = 0.  The Python-side guard on
+    # the centred coordinates is again the only protection.
+    mt = re.search(r'\bnotd\s*=\s*(\d+)', dim, re.I)
+    clampt = re.search(r'nodrt\s*\(\s*i\s*\)\s*=\s*min\s*\(\s*nodrt\s*\(\s*i\s*\)\s*,\s*notd\s*\)',
+                       src, re.I)
+    ordert = re.search(r'nint\s*\(\s*xc\s*\+\s*4\.\s*\*\s*xc\s*\*\*\s*\(\s*1\./3\.\s*\)\s*\)\s*\+\s*2',
+                       src, re.I)
+    seps = []
+    for o in res.raises:
+        for ct, pol in o.cond:
+            for x in subterms(ct):
+                f = lt_form(x) if x[0] == 'cmp' else None
+                if f and f[1][0] == 'num' and any(y == k for y in subterms(f[2])) and \
+                        any(y[0] == 'attr' and y[2] == 'centers' for y in subterms(f[2])):
+                    seps.append(float(f[1][1]))
+    if mt and clampt and ordert:
+        notd = int(mt.group(1))
+        needt = lambda x: round(x + 4. * x ** (1. / 3.)) + 2
+        lo2, hi2 = 0.0, 1e6
+        for _ in range(200):
+            mid = (lo2 + hi2) / 2
+            if needt(mid) <= notd:
+                lo2 = mid
+            else:
+                hi2 = mid
+        sep = min(seps) if seps else float('inf')
+        check.require(needt(sep) <= notd if seps else False, 'H7-cluster-order-cap',
+                      'Multisphere._scsmfo_setup separation guard %g vs notd=%d' % (
+                          sep, notd),
+                      'every centred coordinate the guard admits needs at most notd = '
+                      '%d orders of the cluster expansion' % notd, loc,
+                      fail_detail='centred coordinates up to k d = %g are accepted, but '
+                      'amncalc clamps the cluster-centred expansion at notd = %d orders, '
+                      'enough only for k (d + a) <= %.1f; the clamp is silent (suppress '
+                      '= 1) -- and the default-theory rule (separation <= 30 largest '
+                      'radii, no wavevector) hands such clusters to Multisphere' % (
+                          sep, notd, lo2))
     check.require(need(limit) <= nod, 'H7-cluster-order-cap',
                   'Multisphere._scsmfo_setup size guard %g vs nod=%d' % (limit, nod),
                   'every size parameter the guard admits (x <= %g) needs at most nod = %d '
